@@ -212,6 +212,24 @@ Definition np_argmin {F : Type} (ltb : F -> F -> bool) (l : list F) : res Z :=
   | x :: r => Ret (Z.of_nat (argmin_from ltb x 0 1 r))
   end.
 
+(* np.where(c, a, b) with c a 1-D boolean array and a, b scalars or 1-D arrays of c's length
+   (NumPy would also broadcast a length-1 array; that case is rendered as an error: stricter) *)
+Fixpoint where_vv {F : Type} (c : list bool) (a b : list F) : list F :=
+  match c, a, b with
+  | ci :: c', x :: a', y :: b' => (if ci then x else y) :: where_vv c' a' b'
+  | _, _, _ => []
+  end.
+Definition nd_expand {F : Type} (x : nd F) (n : nat) : option (list F) :=
+  match x with
+  | NdScalar s => Some (repeat s n)
+  | NdVec l => if Nat.eqb (length l) n then Some l else None
+  end.
+Definition np_where {F : Type} (c : list bool) (a b : nd F) : res (list F) :=
+  match nd_expand a (length c), nd_expand b (length c) with
+  | Some la, Some lb => Ret (where_vv c la lb)
+  | _, _ => Raise "ValueError"
+  end.
+
 (* a[i, j] and a[i, j] = v on a 2-D array (negative indices wrap, IndexError outside) *)
 Definition np_get2 {F : Type} (a : arr2 F) (i j : Z) : res F :=
   row <- py_getitem (a_cells a) i ;; py_getitem row j.
